@@ -461,15 +461,53 @@ fn op_rb(input: &[u8]) -> String {
     } else {
         "na".to_string()
     };
+    // augmenting proxy: the decoded parts re-emitted TLV by TLV with one more TLV appended must
+    // parse back to the same endpoints and to the old items followed by the new one
+    let aug = if h.address_family() != v2::AddressFamily::Unspecified {
+        match &items {
+            Ok(items) => {
+                let extra = v2::TypeLengthValue::new(v2::Type::NoOp, &[0xAA, 0xBB][..]);
+                let mut b = Ok(v2::Builder::with_addresses(h.version | h.command, h.protocol, h.addresses));
+                for t in items.iter() {
+                    b = b.and_then(|b| b.write_tlv(t.kind, t.value.as_ref()));
+                }
+                match b.and_then(|b| b.write_payload(&extra)).and_then(|b| b.build()) {
+                    Err(_) => "big".to_string(),
+                    Ok(out) => match v2::Header::try_from(out.as_slice()) {
+                        Err(_) => format!("noparse:{}", hex(&out)),
+                        Ok(h2) => {
+                            let got: Vec<_> = h2.tlvs().collect();
+                            let mut want: Vec<Result<v2::TypeLengthValue<'_>, v2::ParseError>> = items.iter().cloned().map(Ok).collect();
+                            want.push(Ok(extra.clone()));
+                            if h2.command == h.command
+                                && h2.protocol == h.protocol
+                                && h2.addresses == h.addresses
+                                && h2.as_bytes() == out.as_slice()
+                                && got == want
+                            {
+                                "eq".to_string()
+                            } else {
+                                format!("diff:{}", hex(&out))
+                            }
+                        }
+                    },
+                }
+            }
+            Err(_) => "na".to_string(),
+        }
+    } else {
+        "na".to_string()
+    };
     format!(
-        "hdr={} raw={} sec={} items={} addr={} braw={} baddr={}",
+        "hdr={} raw={} sec={} items={} addr={} braw={} baddr={} aug={}",
         hex(h.as_bytes()),
         show(raw),
         show(sec),
         it,
         addr,
         show(braw),
-        baddr
+        baddr,
+        aug
     )
 }
 
